@@ -411,6 +411,10 @@ class BaseTaskPool:
         Returns:
             The ID of the newly started task.
         """
+        # A meta task spawns tasks for a request that was accepted before the
+        # pool was locked; locking must not make it drop the remainder.
+        if group_name in self._group_meta_tasks_running:
+            ignore_lock = True
         self._check_start(awaitable=awaitable, ignore_lock=ignore_lock)
         await self._enough_room.acquire()
         # TODO: Make sure that cancellation (group or pool) interrupts
